@@ -1,6 +1,7 @@
 package main
 
 import (
+	"strconv"
 	"fmt"
 	"go/ast"
 	"go/constant"
@@ -535,6 +536,12 @@ func (vc *VC) enterBlock(st *State, f *Frame, from, to *ssa.BasicBlock) []*State
 		}
 		// entry edge
 		vc.evalPhis(st, f, from, to)
+		if f.loopEntry == nil {
+			f.loopEntry = map[*ssa.BasicBlock]*State{}
+		}
+		snap := st.snapshot()
+		snap.frames = st.frames // registers are single-assignment: reading them through the live frames is safe
+		f.loopEntry[to] = snap
 		vc.loopInvariants(st, f, li, "inv-entry")
 		vc.havocLoop(st, f, li)
 		f.cut[to] = true
@@ -724,6 +731,9 @@ func (vc *VC) simple(st *State, f *Frame, ins ssa.Instruction) {
 			}
 			f.names[obj.Name()] = x.X
 			f.objs[obj] = x.X
+			if os.Getenv("VERIF_DEBUG_NAMES") == obj.Name() {
+				fmt.Fprintf(os.Stderr, "debugref %s := %s in block %d\n", obj.Name(), x.X, x.Block().Index)
+			}
 		}
 	case *ssa.Alloc:
 		elem := x.Type().(*types.Pointer).Elem()
@@ -1288,7 +1298,29 @@ func (vc *VC) havocLoop(st *State, f *Frame, li *loopInfo) {
 		_ = old
 	}
 	mods := vc.loopMods(f.fn, li, map[*ssa.Function]bool{})
+	if os.Getenv("VERIF_DEBUG_MODS") != "" {
+		for _, m := range mods {
+			fmt.Fprintf(os.Stderr, "mods %s loop%d: kind=%s heap=%s ref=%v\n", f.fn.Name(), li.ordinal, m.kind, m.heap, m.ref)
+		}
+	}
 
+	// calls of function values: expand to the effects of the function literal the value is bound to on this path
+	for i := 0; i < len(mods); i++ {
+		m := mods[i]
+		if m.kind != "call-value" {
+			continue
+		}
+		if cl, ok := f.regs[m.ref].(*Closure); ok && cl.Fn.Blocks != nil {
+			for _, im := range vc.loopMods(cl.Fn, nil, map[*ssa.Function]bool{cl.Fn: true}) {
+				im.ref = nil // objects of the literal's own frame or captured cells: not resolvable from this frame
+				if os.Getenv("VERIF_DEBUG_MODS") != "" {
+					fmt.Fprintf(os.Stderr, "  via %s: kind=%s heap=%s\n", cl.Fn.Name(), im.kind, im.heap)
+				}
+				mods = append(mods, im)
+			}
+		}
+		// any other function value: results arbitrary, heap untouched (as at the call itself)
+	}
 	type heapPlan struct {
 		full    bool
 		newOnly bool
@@ -1351,6 +1383,35 @@ func (vc *VC) havocLoop(st *State, f *Frame, li *loopInfo) {
 					st.heaps[hn] = nh
 				}
 			}
+		case "bufstr":
+			if !mapSeen["bufstr"] {
+				mapSeen["bufstr"] = true
+				vc.bufHeap(st)
+				st.heaps["BUFSTR"] = vc.fresh("BUFSTR", st.heaps["BUFSTR"].Sort)
+			}
+		case "deref-iface":
+			// the object an interface-typed variable (held in a cell of this frame) points to
+			done := false
+			if pv, ok := f.regs[m.ref].(*Ptr); ok {
+				cellT := m.ref.Type().Underlying().(*types.Pointer).Elem()
+				iv := vc.unfoldSelect(vc.term(st, vc.load(st, vc.asPtr(pv, cellT)), "iface"))
+				if os.Getenv("VERIF_DEBUG_MODS") != "" {
+					fmt.Fprintf(os.Stderr, "deref-iface: %s\n", abbreviate(iv.S, 200))
+				}
+				if tag, err := strconv.Atoi(ifaceTag(iv).S); err == nil && tag > 0 && tag <= len(vc.eng.tagTypes) {
+					if ppt, isPtr := vc.eng.tagTypes[tag-1].Underlying().(*types.Pointer); isPtr {
+						s := T.SortOf(ppt.Elem())
+						p := plan(heapName("H", s), s, false)
+						p.refs = append(p.refs, ifaceVal(iv))
+						p.refTys = append(p.refTys, ppt.Elem())
+						done = true
+					}
+				}
+			}
+			if !done {
+				vc.havocAll(st)
+				vc.note("loop %d of %s: all heaps havocked at the loop head (a callback writes through an interface value of unknown dynamic type)", li.ordinal, f.fn.Name())
+			}
 		case "kvit":
 			if mapSeen["kvit"] {
 				continue
@@ -1358,7 +1419,8 @@ func (vc *VC) havocLoop(st *State, f *Frame, li *loopInfo) {
 			mapSeen["kvit"] = true
 			vc.kvitCur(st)
 			vc.kvitVis(st)
-			for _, n := range []string{"KVITcur", "KVITvis"} {
+			vc.kvitSum(st)
+			for _, n := range []string{"KVITcur", "KVITvis", "KVITsum"} {
 				st.heaps[n] = vc.fresh(n, st.heaps[n].Sort)
 			}
 		case "kv":
@@ -1649,6 +1711,7 @@ func (vc *VC) loopInvariants(st *State, f *Frame, li *loopInfo, mode string) {
 	if len(st.frames) > 1 {
 		env.old = nil
 	}
+	env.loopEntry = f.loopEntry[li.header]
 	for _, cl := range clauses {
 		t, err := env.EvalBool(cl.E)
 		if err != nil {
@@ -1906,6 +1969,31 @@ func (vc *VC) boundValue(f *Frame, li *loopInfo, name string) (ssa.Value, bool) 
 			if len(outer) == 1 {
 				v, ok := f.objs[outer[0]]
 				return v, ok
+			}
+		}
+	}
+	if li != nil {
+		// a variable assigned just before the loop and not changed by it: the merge after the loop says which value
+		// flows out of the loop header (debug information only records a value where the variable is read)
+		for _, succ := range li.header.Succs {
+			if li.body[succ] {
+				continue
+			}
+			for _, ins := range succ.Instrs {
+				phi, isPhi := ins.(*ssa.Phi)
+				if !isPhi {
+					break
+				}
+				if phi.Comment != name {
+					continue
+				}
+				for i, p := range succ.Preds {
+					if p == li.header && i < len(phi.Edges) {
+						if _, have := f.regs[phi.Edges[i]]; have {
+							return phi.Edges[i], true
+						}
+					}
+				}
 			}
 		}
 	}
